@@ -26,7 +26,7 @@ package remote
 
 //@ func (*streamReader).Receive(stream)
 //@   props C16
-//@   requires r != nil && r.remote != nil && r.remote.engine != nil && !isnil(r.deserializer) && !isnil(stream)
+//@   requires r != nil && r.remote != nil && engInv(r.remote.engine) && !isnil(r.deserializer) && !isnil(stream)
 //@   nopanic[C16.receive.nopanic]
 //@   ghost at call SendLocal#1 before: assert[C16.receive.type-index-valid] 0 <= msg.TypeNameIndex && msg.TypeNameIndex < len(envelope.TypeNames)
 //@   ghost at call SendLocal#1 before: assert[C16.receive.target-index-valid] 0 <= msg.TargetIndex && msg.TargetIndex < len(envelope.Targets)
